@@ -99,9 +99,15 @@ Proof.
   - intro Z. subst id. cbn in Ln. lia.
 Qed.
 
-(* the three externally decoded single-valued kinds are stable by hypothesis (see the theorem) *)
+(* what is asked of the externally decoded values an accepted packet holds: a witness UTXO must have
+   the 44 canonical bytes readTxOut asks for, a peg-in transaction (btcd wire.MsgTx, an oracle here)
+   must re-decode to itself; a non-witness UTXO needs nothing (C01) *)
 Definition s_ext (k : skind) (b : bytes) : Prop :=
-  match k with KTx | KTxOut | KMsgTx => s_wf k false b = true | _ => True end.
+  match k with
+  | KTxOut => (44 <= length b)%nat
+  | KMsgTx => s_wf KMsgTx false b = true
+  | _ => True
+  end.
 
 Lemma le_dec_repeat0 n : le_dec (repeat x00 n) = 0.
 Proof. induction n as [|n IH]; [reflexivity|]. cbn [repeat le_dec]. rewrite IH. reflexivity. Qed.
@@ -113,6 +119,80 @@ Lemma wf_of_stable k al b : PsetV2.s_dec pk_ok msgtx_canon k (s_emit k b) = ROk 
 Proof.
   intros D L. unfold PsetV2.s_wf. destruct (s_emits k al b); [|reflexivity].
   rewrite D. cbn [cres_bytes_eqb]. rewrite bytes_eqb_refl. destruct (N.ltb_spec (lenN (s_emit k b)) two64); [reflexivity | lia].
+Qed.
+
+(* ----- when the stability premise holds: the two kinds decoded by this repository's own code ----- *)
+(* a non-witness UTXO whose flag byte is 0 or 1 (C01) *)
+Lemma tx_stable_canonical v t r : parse_tx v = Some (t, r) -> canonical_flag t = true -> lenN v < two64 ->
+  s_wf KTx false (ser_full t) = true.
+Proof.
+  intros P C L. pose proof (tx_ser_parse v t r P C) as E. pose proof (parse_tx_wf v t r P C) as W.
+  pose proof (tx_parse_ser t [] W) as Q. rewrite app_nil_r in Q.
+  assert (CN : canonical_flag (norm_tx t) = true) by (unfold canonical_flag, norm_tx; cbn [t_flag]; destruct (has_witness t); reflexivity).
+  pose proof (tx_ser_parse (ser_full t) (norm_tx t) [] Q CN) as E2. rewrite app_nil_r in E2.
+  apply wf_of_stable; cbn [s_emit PsetV2.s_dec].
+  - rewrite Q, E2. reflexivity.
+  - rewrite <- E, lenN_app in L. lia.
+Qed.
+
+(* a witness UTXO whose canonical encoding has the 44 bytes readTxOut asks for *)
+Lemma txout_stable v b : read_txout v = Some b -> (44 <= length b)%nat -> lenN v < two64 -> s_wf KTxOut false b = true.
+Proof.
+  unfold read_txout. destruct (length v <? 44)%nat; [discriminate|].
+  destruct (p_asset v) as [[a r1]|] eqn:P1; [|discriminate].
+  destruct (p_value r1) as [[val r2]|] eqn:P2; [|discriminate].
+  destruct (p_nonce r2) as [[n r3]|] eqn:P3; [|discriminate].
+  destruct (p_var_slice r3) as [[sc r4]|] eqn:P4; [|discriminate].
+  intro H; inversion H; subst b; clear H. intros L45 Lv.
+  apply p_asset_inv in P1 as [-> Ha]. apply p_value_inv in P2 as [-> Hv]. apply p_nonce_inv in P3 as [-> Hn].
+  apply p_var_slice_inv in P4 as [-> Hs].
+  apply wf_of_stable; cbn [s_emit PsetV2.s_dec].
+  - unfold read_txout. destruct (Nat.ltb_spec (length (a ++ val ++ n ++ var_slice sc)) 44); [lia|].
+    rewrite p_asset_app by exact Ha. rewrite p_value_app by exact Hv. rewrite p_nonce_app by exact Hn.
+    rewrite <- (app_nil_r (var_slice sc)). rewrite p_var_slice_app by exact Hs. rewrite app_nil_r. reflexivity.
+  - rewrite !lenN_app in Lv. rewrite !lenN_app. lia.
+Qed.
+
+(* a transaction accepted with a flag byte other than 0/1 is the transaction accepted from the same
+   bytes with the flag byte 0, and both serialize alike *)
+Lemma parse_tx_flag0 v t r : parse_tx v = Some (t, r) -> t_flag t <> 1 ->
+  exists v0, parse_tx v0 = Some (mk_tx (t_version t) 0 (t_locktime t) (t_ins t) (t_outs t), r) /\ length v0 = length v.
+Proof.
+  unfold parse_tx, bind. intros H NF.
+  destruct (p_le 4 v) as [[ver r1]|] eqn:P1; [|discriminate].
+  destruct (p_u8 r1) as [[flag r2]|] eqn:P2; [|discriminate].
+  apply p_le_inv in P1 as [-> Hver]. apply p_u8_inv in P2 as [-> Hflag].
+  exists (le_enc 4 ver ++ b8 0 :: r2). rewrite p_le_app by exact Hver. rewrite p_u8_app by lia.
+  destruct (p_varint r2) as [[nin r3]|]; [|discriminate].
+  destruct (p_list p_in nin r3) as [[ins r4]|]; [|discriminate].
+  destruct (p_varint r4) as [[nout r5]|]; [|discriminate].
+  destruct (p_list p_out nout r5) as [[outs r6]|]; [|discriminate].
+  destruct (p_le 4 r6) as [[lt r7]|]; [|discriminate].
+  destruct (N.eqb_spec flag 1) as [F1|F1].
+  - exfalso. destruct (p_list p_in_wit (lenL ins) r7) as [[iw r8]|]; [|discriminate].
+    destruct (p_list p_out_wit (lenL outs) r8) as [[ow r9]|]; [|discriminate].
+    unfold ret in H. inversion H; subst t. cbn [t_flag] in NF. congruence.
+  - unfold ret in H. inversion H; subst t r. cbn [t_version t_flag t_locktime t_ins t_outs N.eqb]. unfold ret.
+    split; [reflexivity|]. rewrite !app_length. cbn [length]. reflexivity.
+Qed.
+
+Lemma ser_full_flag0 t : t_flag t <> 1 ->
+  ser_full (mk_tx (t_version t) 0 (t_locktime t) (t_ins t) (t_outs t)) = ser_full t.
+Proof.
+  intro NF. unfold ser_full, ser_tx, has_witness, any_witness_input, any_conf_output.
+  cbn [t_version t_flag t_locktime t_ins t_outs]. destruct (N.eqb_spec (t_flag t) 1); [contradiction|]. reflexivity.
+Qed.
+
+
+(* every non-witness UTXO the decoder returns is stable, whatever flag byte it was read with *)
+Lemma tx_stable_any v t r : parse_tx v = Some (t, r) -> lenN v < two64 -> s_wf KTx false (ser_full t) = true.
+Proof.
+  intros P L. destruct (canonical_flag t) eqn:C; [apply (tx_stable_canonical v t r P C L)|].
+  assert (NF : t_flag t <> 1).
+  { unfold canonical_flag in C. apply orb_false_iff in C as [_ C]. apply N.eqb_neq in C. exact C. }
+  destruct (parse_tx_flag0 v t r P NF) as (v0 & P0 & L0).
+  rewrite <- (ser_full_flag0 t NF). apply (tx_stable_canonical v0 _ r P0); [reflexivity|].
+  unfold lenN in *. rewrite L0. exact L.
 Qed.
 
 (* a non-empty decoder output is a fixpoint of its own decoder *)
@@ -143,10 +223,14 @@ Proof.
     + cbn [PsetV2.s_dec]. pose proof (p_varint_app n [] Hn) as Q. rewrite app_nil_r in Q. rewrite Q.
       destruct (N.eqb_spec n 0); [lia | reflexivity].
     + pose proof (varint_len_le n). unfold two64. lia.
-  - (* KTx *) destruct (s_emits KTx false b) eqn:E; [|cbn in E; destruct b; [congruence | discriminate]].
-    unfold PsetV2.s_wf in *. rewrite E in X. destruct (s_emits KTx al b); [exact X | reflexivity].
-  - (* KTxOut *) destruct (s_emits KTxOut false b) eqn:E; [|cbn in E; destruct b; [congruence | discriminate]].
-    unfold PsetV2.s_wf in *. rewrite E in X. destruct (s_emits KTxOut al b); [exact X | reflexivity].
+  - (* KTx *) cbn [PsetV2.s_dec] in D. destruct (parse_tx v) as [[t r]|] eqn:P; [|discriminate]. inversion D; subst b.
+    pose proof (tx_stable_any v t r P Lv) as S. unfold PsetV2.s_wf in *.
+    assert (E : s_emits KTx false (ser_full t) = true) by (cbn; destruct (ser_full t); [congruence | reflexivity]).
+    rewrite E in S. destruct (s_emits KTx al (ser_full t)); [exact S | reflexivity].
+  - (* KTxOut *) cbn [PsetV2.s_dec] in D. destruct (read_txout v) as [b'|] eqn:P; [|discriminate]. inversion D; subst b'.
+    pose proof (txout_stable v b P X Lv) as S. unfold PsetV2.s_wf in *.
+    assert (E : s_emits KTxOut false b = true) by (cbn; destruct b; [congruence | reflexivity]).
+    rewrite E in S. destruct (s_emits KTxOut al b); [exact S | reflexivity].
   - (* KMsgTx *) destruct (s_emits KMsgTx false b) eqn:E; [|cbn in E; destruct b; [congruence | discriminate]].
     unfold PsetV2.s_wf in *. rewrite E in X. destruct (s_emits KMsgTx al b); [exact X | reflexivity].
   - (* KVec *) cbn [PsetV2.s_dec] in D. destruct (p_vector v) as [[l r]|] eqn:P; [|discriminate].
@@ -487,7 +571,7 @@ Theorem secI_wf tbl sanity s :
   (forall i sl k, nth_error tbl i = Some sl -> sl_k sl = SS k true -> val_at i s = [] ->
                   s_dec k (s_emit k []) = ROk [] /\ lenN (s_emit k []) < two64) ->
   (* the externally decoded values are stable *)
-  (forall i sl k al, nth_error tbl i = Some sl -> sl_k sl = SS k al -> s_ext k (val_at i s)) ->
+  (forall i sl k al, nth_error tbl i = Some sl -> sl_k sl = SS k al -> val_at i s <> [] -> s_ext k (val_at i s)) ->
   sanity (norm_sec tbl s) = true ->
   wf_sec pk_ok der_ok xonly_ok msgtx_canon tbl sanity s = true.
 Proof.
@@ -511,7 +595,7 @@ Proof.
         { unfold s_emits in E. destruct al; [reflexivity|]. cbn [orb] in E. destruct k; cbn in E; discriminate. }
         subst al. destruct (Habs i sl k Hi K Vb) as [D' L]. rewrite D'. cbn [cres_bytes_eqb bytes_eqb andb].
         destruct (N.ltb_spec (lenN (s_emit k [])) two64); [reflexivity | lia].
-      * apply (dec_out_wf k al v (b0 :: b) D Lvv); [discriminate|]. rewrite <- Vb. apply (Hext i sl k al Hi K).
+      * apply (dec_out_wf k al v (b0 :: b) D Lvv); [discriminate|]. rewrite <- Vb. apply (Hext i sl k al Hi K). rewrite Vb. discriminate.
   - destruct Si as [Vi R]. rewrite Vi, Ke. cbn [andb].
     destruct (reach_wf _ m _ R) as [W F]. rewrite W. cbn [andb].
     apply forallb_forall. intros e He. rewrite Forall_forall in F. destruct (F e He) as [Kb Vbd].
@@ -660,18 +744,20 @@ Proof.
   destruct (s_dec k (s_emit k [])) as [b| |]; try discriminate. cbn [cres_bytes_eqb] in A1. apply bytes_eqb_eq in A1. subst. reflexivity.
 Qed.
 
-(* the externally decoded values of a section are stable (decidable, evaluated by the correspondence run) *)
+(* the premise on the externally decoded values of a section (decidable): a witness UTXO that is present
+   has 44 bytes, a peg-in transaction is stable *)
 Definition ext_okb (tbl : list slot) (s : sec) : bool :=
   forallb (fun isl => match sl_k (snd isl) with
-                      | SS KTx _ => s_wf KTx false (val_at (fst isl) s)
-                      | SS KTxOut _ => s_wf KTxOut false (val_at (fst isl) s)
+                      | SS KTxOut _ => (44 <=? length (val_at (fst isl) s))%nat || negb (nonemptyb (val_at (fst isl) s))
                       | SS KMsgTx _ => s_wf KMsgTx false (val_at (fst isl) s)
                       | _ => true end) (indexed tbl).
 Lemma ext_okb_use tbl s i sl k al : ext_okb tbl s = true -> nth_error tbl i = Some sl -> sl_k sl = SS k al ->
-  s_ext k (val_at i s).
+  val_at i s <> [] -> s_ext k (val_at i s).
 Proof.
-  intros E Hi K. unfold ext_okb in E. rewrite forallb_forall in E. specialize (E (i, sl) (indexed_in tbl i sl Hi)).
-  cbn [fst snd] in E. rewrite K in E. destruct k; cbn [s_ext]; try exact I; exact E.
+  intros E Hi K Ne. unfold ext_okb in E. rewrite forallb_forall in E. specialize (E (i, sl) (indexed_in tbl i sl Hi)).
+  cbn [fst snd] in E. rewrite K in E. destruct k; cbn [s_ext]; try exact I; [|exact E].
+  apply orb_true_iff in E as [E|E]; [apply Nat.leb_le; exact E|].
+  destruct (val_at i s); [congruence | discriminate].
 Qed.
 
 (* ----- sections ----- *)
@@ -690,7 +776,7 @@ Proof.
   apply (secI_wf tbl sanity s T SK MK I).
   - intros i sl k Hi K Z. destruct (req i) eqn:R; [exfalso; apply (Hreq s San i R Z)|].
     apply (abs_ok_use tbl req i sl k AB Hi K R).
-  - intros i sl k al Hi K. apply (ext_okb_use tbl s i sl k al X Hi K).
+  - intros i sl k al Hi K Ne. apply (ext_okb_use tbl s i sl k al X Hi K Ne).
   - rewrite Hnorm. exact San.
 Qed.
 
@@ -771,35 +857,4 @@ Proof.
   exists bs'. split; [exact S|]. rewrite <- (app_nil_r bs'). apply P.
 Qed.
 
-(* ----- when the stability premise holds: the two kinds decoded by this repository's own code ----- *)
-(* a non-witness UTXO whose flag byte is 0 or 1 (C01) *)
-Lemma tx_stable_canonical v t r : parse_tx v = Some (t, r) -> canonical_flag t = true -> lenN v < two64 ->
-  s_wf KTx false (ser_full t) = true.
-Proof.
-  intros P C L. pose proof (tx_ser_parse v t r P C) as E. pose proof (parse_tx_wf v t r P C) as W.
-  pose proof (tx_parse_ser t [] W) as Q. rewrite app_nil_r in Q.
-  assert (CN : canonical_flag (norm_tx t) = true) by (unfold canonical_flag, norm_tx; cbn [t_flag]; destruct (has_witness t); reflexivity).
-  pose proof (tx_ser_parse (ser_full t) (norm_tx t) [] Q CN) as E2. rewrite app_nil_r in E2.
-  apply wf_of_stable; cbn [s_emit PsetV2.s_dec].
-  - rewrite Q, E2. reflexivity.
-  - rewrite <- E, lenN_app in L. lia.
-Qed.
-
-(* a witness UTXO whose canonical encoding has the 44 bytes readTxOut asks for *)
-Lemma txout_stable v b : read_txout v = Some b -> (44 <= length b)%nat -> lenN v < two64 -> s_wf KTxOut false b = true.
-Proof.
-  unfold read_txout. destruct (length v <? 44)%nat; [discriminate|].
-  destruct (p_asset v) as [[a r1]|] eqn:P1; [|discriminate].
-  destruct (p_value r1) as [[val r2]|] eqn:P2; [|discriminate].
-  destruct (p_nonce r2) as [[n r3]|] eqn:P3; [|discriminate].
-  destruct (p_var_slice r3) as [[sc r4]|] eqn:P4; [|discriminate].
-  intro H; inversion H; subst b; clear H. intros L45 Lv.
-  apply p_asset_inv in P1 as [-> Ha]. apply p_value_inv in P2 as [-> Hv]. apply p_nonce_inv in P3 as [-> Hn].
-  apply p_var_slice_inv in P4 as [-> Hs].
-  apply wf_of_stable; cbn [s_emit PsetV2.s_dec].
-  - unfold read_txout. destruct (Nat.ltb_spec (length (a ++ val ++ n ++ var_slice sc)) 44); [lia|].
-    rewrite p_asset_app by exact Ha. rewrite p_value_app by exact Hv. rewrite p_nonce_app by exact Hn.
-    rewrite <- (app_nil_r (var_slice sc)). rewrite p_var_slice_app by exact Hs. rewrite app_nil_r. reflexivity.
-  - rewrite !lenN_app in Lv. rewrite !lenN_app. lia.
-Qed.
 End Inv.
